@@ -93,6 +93,13 @@ def gen_cases(tier, seed):
         dev = zoo.scale_device_spec(dev, 1e-7, "m")
         W_ = dev["film"].get("w", 4e-7)
         cases.append({"device": dev, "post": "tiny_move", "move": [0.012 * W_, -0.009 * W_], "seed": int(rng.integers(1 << 30)), "cost": 5})
+    for j in range(1 if tier == "quick" else 3):
+        # the same kind of device with a DENSELY sampled outline: neighbouring outline vertices are a few nanometres apart
+        # (numbers ~1e-9 apart): every one of them is a vertex of the outline and a boundary site of the mesh
+        dev = zoo.gen_device(rng, n_terminals=0, n_holes=int(j % 2), probes=0, size="small", film_kind="ellipse", smooth=0)
+        dev["film"]["points"] = int([420, 600, 500][j % 3])
+        dev = zoo.scale_device_spec(dev, 1e-7, "m")
+        cases.append({"device": dev, "post": None, "seed": int(rng.integers(1 << 30)), "cost": 8})
     for j in range(2 if tier == "quick" else 6):
         # exactly structured tiny meshes: a rectangle given by its corners (and side midpoints), no refinement. Pairs of right
         # triangles share their circumcentre (cocircular sites, zero dual edge length): weakly Delaunay, cells still well defined
